@@ -6,5 +6,5 @@ CONSTANTS
   ConcLen = 0
   Symbols = {1, 2}
   Mutant = "none"
-INVARIANTS TypeOK OracleSane LinesExact LinesPrefix CarryIsTail OKOnlyAfterAllLines NoOKOnError SidExclusive NoMixing NoForeignBytes Balanced Export
+INVARIANTS TypeOK OracleSane LinesExact LinesPrefix CarryIsTail OKOnlyAfterAllLines NoOKOnError SidExclusive NoMixing NoForeignBytes BufOwned PendingStable Balanced Export
 CHECK_DEADLOCK FALSE
